@@ -11,15 +11,18 @@
 (*   prealloc n / nop no change of contents                                *)
 (* After every step the driver observed (st.obs, a list of 0 or 1 records) *)
 (*   len                      number of entries the table reports          *)
-(*   look[x] for r.keys[x]    tags of the entries found for the key (tags),*)
-(*                            tag of the single-entry lookup (get, -2 none)*)
-(*                            membership (has), first-entry position (first*)
-(*                            , -1 none)                                   *)
+(*   look[x] for r.keys[x]    <<tags, get, has, first>>: tags of the       *)
+(*                            entries found for the key, tag of the        *)
+(*                            single-entry lookup (-2 none), membership,   *)
+(*                            first-entry position (-1 none)               *)
 (*   fill[y] for r.fsamp[y]   the same for a fixed sample of filler numbers*)
-(*   iter_t                   tags of tracked entries met while iterating  *)
-(*   fill_seen/fill_distinct  filler entries / distinct fillers met        *)
-(*   bad                      entries met whose payload or key is not what *)
-(*                            was inserted                                 *)
+(*   it                       <<seen, distinct, min, max>> over the tags of*)
+(*                            tracked entries met while iterating          *)
+(*   fs                       <<filler entries met, distinct fillers met,  *)
+(*                            entries met whose payload or key is not what *)
+(*                            was inserted>>                               *)
+(* (JSON is slow to read in TLC, hence tuples and the iteration summary;   *)
+(* the summary is exact because the driver numbers tracked tags 1,2,3,...) *)
 (* The expected contents after step i are a function of steps 1..i only    *)
 (* (declarative: no table layout, buckets, growth or bloom bits here).     *)
 (***************************************************************************)
@@ -44,17 +47,22 @@ FillCount(steps, i) ==
   LET S == {steps[j].to : j \in {q \in 1..i : steps[q].op = "burst"}}
   IN IF S = {} THEN 0 ELSE CHOOSE x \in S : \A y \in S : y <= x
 
+Tags(L) == L[1]
+Get(L) == L[2]
+Has(L) == L[3]
+First(L) == L[4]
+
 LookOK(T, L, total) ==
-  /\ Len(L.tags) = Cardinality(T) /\ Range(L.tags) = T     \* exactly the inserted entries, each once
-  /\ IF T = {} THEN L.get = -2 /\ L.first = -1 /\ ~L.has
-     ELSE L.get \in T /\ L.has /\ L.first \in 0..total
+  /\ Len(Tags(L)) = Cardinality(T) /\ Range(Tags(L)) = T     \* exactly the inserted entries, each once
+  /\ IF T = {} THEN Get(L) = -2 /\ First(L) = -1 /\ ~Has(L)
+     ELSE Get(L) \in T /\ Has(L) /\ First(L) \in 0..total
 
 ObsOK(r, i, o) ==
   LET c     == FillCount(r.steps, i)
       AT    == AllTracked(r.steps, i)
       total == Cardinality(AT) + c
-      firsts == [x \in DOMAIN r.keys |-> o.look[x].first]
-      ffirsts == [y \in DOMAIN r.fsamp |-> o.fill[y].first]
+      firsts == [x \in DOMAIN r.keys |-> First(o.look[x])]
+      ffirsts == [y \in DOMAIN r.fsamp |-> First(o.fill[y])]
   IN /\ o.len = total
      /\ Len(o.look) = Len(r.keys) /\ Len(o.fill) = Len(r.fsamp)
      /\ \A x \in DOMAIN r.keys : LookOK(TagsOf(r.steps, i, r.keys[x]), o.look[x], total)
@@ -64,20 +72,21 @@ ObsOK(r, i, o) ==
      /\ \A x1, x2 \in DOMAIN r.keys : (x1 # x2 /\ firsts[x1] # -1) => firsts[x1] # firsts[x2]
      /\ \A y1, y2 \in DOMAIN r.fsamp : (y1 # y2 /\ ffirsts[y1] # -1) => ffirsts[y1] # ffirsts[y2]
      /\ \A x \in DOMAIN r.keys : \A y \in DOMAIN r.fsamp : firsts[x] # -1 => firsts[x] # ffirsts[y]
-     \* iteration yields every entry exactly once
-     /\ Len(o.iter_t) = Cardinality(AT) /\ Range(o.iter_t) = AT
-     /\ o.fill_seen = c /\ o.fill_distinct = c /\ o.bad = 0
+     \* iteration yields every entry exactly once: as many tracked entries as inserted, all distinct, none outside
+     \* the inserted tags (smallest and largest tag met are inserted tags; tags are consecutive numbers)
+     /\ o.it[1] = Cardinality(AT) /\ o.it[2] = Cardinality(AT)
+     /\ (AT # {} => o.it[3] \in AT /\ o.it[4] \in AT)
+     /\ o.fs[1] = c /\ o.fs[2] = c /\ o.fs[3] = 0
 
 \* the first-entry position of a key never changes once the key has an entry
 Stable(r, p, q) ==   \* p earlier observation, q later observation
-  /\ \A x \in DOMAIN r.keys : p.look[x].first # -1 => q.look[x].first = p.look[x].first
-  /\ \A y \in DOMAIN r.fsamp : p.fill[y].first # -1 => q.fill[y].first = p.fill[y].first
+  /\ \A x \in DOMAIN r.keys : First(p.look[x]) # -1 => First(q.look[x]) = First(p.look[x])
+  /\ \A y \in DOMAIN r.fsamp : First(p.fill[y]) # -1 => First(q.fill[y]) = First(p.fill[y])
 
-ObsIdx(r) == {i \in DOMAIN r.steps : Len(r.steps[i].obs) = 1}
-
+\* the driver observes after every step (a step without observation only occurs after a panic, which fails anyway)
 RecOK(r) ==
   /\ r.panic = ""
-  /\ \A i \in ObsIdx(r) : ObsOK(r, i, r.steps[i].obs[1])
-  /\ \A i, j \in ObsIdx(r) :
-       (i < j /\ \A q \in ObsIdx(r) : ~(i < q /\ q < j)) => Stable(r, r.steps[i].obs[1], r.steps[j].obs[1])
+  /\ \A i \in DOMAIN r.steps : Len(r.steps[i].obs) = 1 => ObsOK(r, i, r.steps[i].obs[1])
+  /\ \A i \in 2..Len(r.steps) :
+       (Len(r.steps[i-1].obs) = 1 /\ Len(r.steps[i].obs) = 1) => Stable(r, r.steps[i-1].obs[1], r.steps[i].obs[1])
 =============================================================================
